@@ -450,8 +450,8 @@ func (g *gen) commandStep() (omap, umap) {
 			"adjustments": []any{umap{"with": umap{"os": "win", "arch": "386"}, "skip": true, "soft_fail": true},
 				umap{"with": umap{"os": "true", "arch": "x"}}}}
 	case 2:
-		in = append(in, kv{"matrix", omap{{"setup", []any{"a", 2}}, {"adjustments", []any{omap{{"with", "c"}, {"skip", "reason"}}, omap{{"with", true}}, omap{{"with", 3}, {"soft_fail", false}}}}}})
-		want["matrix"] = umap{"setup": []any{"a", "2"}, "adjustments": []any{umap{"with": "c", "skip": "reason"}, umap{"with": "true"}, umap{"with": "3", "soft_fail": false}}}
+		in = append(in, kv{"matrix", omap{{"setup", []any{"a", 2}}, {"adjustments", []any{omap{{"with", "c"}, {"skip", "reason"}}, omap{{"with", true}}, omap{{"with", 3}, {"soft_fail", false}}, omap{{"with", 1.5}}, omap{{"skip", true}}}}}})
+		want["matrix"] = umap{"setup": []any{"a", "2"}, "adjustments": []any{umap{"with": "c", "skip": "reason"}, umap{"with": "true"}, umap{"with": "3", "soft_fail": false}, umap{"with": "1.5"}, umap{"with": umap{}, "skip": true}}}
 	}
 	// cache
 	switch r.Intn(8) {
